@@ -641,6 +641,7 @@ func (t Timeouts) Create(ctx context.Context, wf, fid, runID string, status int,
 func (t Timeouts) Complete(ctx context.Context, id int64) error {
 	w := t.w
 	return w.call(ctx, fmt.Sprintf("tcomplete(%d)", id), func() (string, error) {
+		w.Mon.onTimerComplete(id)
 		for _, tr := range w.timers {
 			if tr.ID == id {
 				tr.Completed = true
